@@ -948,6 +948,23 @@ func genStanza(t *rapid.T, stanzaNS string, k kind, typ string) *elem {
 	if rapid.IntRange(0, 4).Draw(t, "lang") == 0 {
 		e.attrs = append(e.attrs, [2]string{"xml:lang", "en"})
 	}
+	if rapid.IntRange(0, 4).Draw(t, "foreignAttrs") == 0 {
+		// attributes of the same local names in a foreign namespace are not the
+		// stanza's own type / id / addresses
+		e.attrs = append(e.attrs, [2]string{"xmlns:x", "urn:verif:ext"})
+		for _, ty := range typesOf(k) {
+			if ty != "" && ty != typ {
+				e.attrs = append(e.attrs, [2]string{"x:type", ty})
+				break
+			}
+		}
+		if rapid.Bool().Draw(t, "foreignID") {
+			e.attrs = append(e.attrs, [2]string{"x:id", "foreign-id"})
+		}
+		if rapid.Bool().Draw(t, "foreignAddr") {
+			e.attrs = append(e.attrs, [2]string{"x:to", "foreign@example.org/x"}, [2]string{"x:from", "other@example.org/y"})
+		}
+	}
 	// shuffle attribute order
 	if len(e.attrs) > 1 {
 		perm := rapid.Permutation(e.attrs).Draw(t, "attrOrder")
